@@ -1,7 +1,7 @@
 (* C17 - pattern operations agree with one token-wise grammar.
    Only statements; every proof is `exact <lemma of Pattern/Proofs.v>`. *)
 From Coq Require Import String.
-From GoRes Require Import Pattern.Spec Pattern.Proofs.
+From GoRes Require Import Pattern.Spec Pattern.Proofs Pattern.RidPattern.
 Open Scope N_scope.
 
 (* the five scanners are the token-wise functions of Pattern/Spec.v, for EVERY byte string *)
@@ -64,6 +64,17 @@ Proof. exact id_roundtrip_refuted_pf. Qed.
    event and method names, connection ids) is a valid resource id of one token *)
 Theorem valid_part_is_valid_rid : forall t, is_valid_part t = true -> is_valid_rid t = true.
 Proof. exact valid_part_is_rid_pf. Qed.
+
+(* resource ids agree with the pattern grammar: a resource id without query part and without $-tokens is a valid
+   pattern and a valid path, i.e. whatever IsValidRID accepts as a plain resource name can be registered and routed
+   (the $-token exclusion is needed: "a.$" is a valid resource id but not a valid pattern) *)
+Theorem valid_rid_is_valid_pattern : forall r,
+  is_valid_rid r = true -> no_qmark r = true -> no_dollar_tokens r = true ->
+  is_valid r = true /\ is_valid_path r = true.
+Proof. exact valid_rid_is_valid_pattern_pf. Qed.
+Example valid_rid_dollar_token_not_pattern :
+  is_valid_rid (s2b "a.$") = true /\ no_qmark (s2b "a.$") = true /\ is_valid (s2b "a.$") = false.
+Proof. vm_compute. repeat split. Qed.
 
 (* the scanner before the fix violated matches_iff_values (witness "a$b" / "axyz") *)
 Theorem matches_v0_refuted : exists p s,
